@@ -131,6 +131,30 @@ def run(tier, wd):
         if len(rep.cov["samples"]) < 6 and len(m["t"]) >= 4 and rnd.random() < 0.0005:
             rep.cov["samples"].append({"kinds": m["t"], "string": s, "specification": {"well_formed": m["wf"], "error_token": m["err"]},
                                        "library": r.get("specerr") or "compiled"})
+    # the same for the spec of a sub command (compiled lazily while descending): Run must panic with the spec error before the
+    # interceptors of the levels above it run
+    from vlib import tree as T
+    bad = [(m, ) for m in seqs if not m["wf"] and 2 <= len(m["t"]) <= 4]
+    rnd.shuffle(bad)
+    tcases, tmeta = [], []
+    for (m,) in bad[: 150 if q else 3000]:
+        s_, pos = render_kinds(m["t"], rnd)
+        nodes = [{"names": ["app"], "path": "app", "spec": "[-a]", "opts": [{"names": "a aa", "flag": True}], "intopt": "", "args": [], "subs": [1], "action": True},
+                 {"names": ["sub"], "path": "app sub", "spec": s_, "opts": [{"names": "a aa", "flag": True}, {"names": "b", "flag": True}, {"names": "o out", "flag": False}],
+                  "intopt": "", "args": ["X", "Y"], "subs": [], "action": True}]
+        tcases.append({"nodes": nodes, "version": "", "policy": rnd.choice(["continue", "exit", "panic"]), "argv": ["-a", "sub", "x"]})
+        tmeta.append((m, s_))
+    tres = core.run_harness(binpath, "tree", tcases, sub)
+    for (m, s_), r in zip(tmeta, tres):
+        rep.cov["evaluations"] += 1
+        if r.get("skipped"):
+            continue
+        if r.get("hang") or r.get("crash"):
+            rep.violation("sub command spec %r: %s" % (s_, r), {"engine": "parse", "model": m, "s": s_, "pos": []})
+        elif not r.get("panic", "").startswith("error:Parse error") or r["log"]:
+            rep.violation("sub command with the ill-formed spec %r: Run must panic with the spec error before any interceptor runs; panic=%r, ran %s" % (
+                s_, r.get("panic"), r["log"]), {"engine": "parse", "model": m, "s": s_, "pos": []})
+    rep.cov["sub_command_spec_errors"] = len(tcases)
     rep.cov["kind_sequences"] = len(seqs)
     rep.cov["traces_validated_against_impl"] = len(rows) + len(strs) + len(seqs)
     rep.cov["distinct_nontrivial"] = len(lex_nontriv) + parse_nontriv
